@@ -43,3 +43,17 @@ CHECKS["C19"] = {
     "note": ("Behaviour on concrete directory layouts (races between check and use, bind mounts) is not decided. Taint is flow-insensitive inside a function and follows "
              "callees to depth 3. The `$` of the schema-name pattern also admits a trailing newline; this cannot cross a directory and is recorded in the evidence only."),
 }
+
+CHECKS["C10"] = {
+    "technique": "static analysis: path-sensitive abstract interpretation (typestate) of every tool's execute over its CFG; finite fact domain per path state, infeasible edges pruned",
+    "text": ("For ValidateTool/WriteTool/EjectTool/CompileGrammarTool.execute, their envelope helpers and the CLI validate/write commands, an abstract interpreter "
+             "propagates sets of path states (schema-lookup nullness, validator schema, emptiness of the validator's error list, LENIENT/ULTRA branch, abstract "
+             "response dict) through the CFG and decides at every store and every return: validation_status present; value one of the three literals; VALIDATED only "
+             "where a schema lookup is known non-None and the error list known empty (or downgraded by profile); INVALID only with known non-empty errors, "
+             "with validation_errors (or their count) and schema name/version at the return; valid <=> VALIDATED; helpers hard-code UNVALIDATED; the validator "
+             "summary used for the CLI (schema-less validation reports nothing) is itself checked on validator.py. All flag combinations are covered because all "
+             "CFG paths are, not because inputs are run."),
+    "note": ("Not decided: that canonical text returned as VALIDATED validates again (rests on C01/C09 behaviour); severity of the entries in the error list "
+             "(warning-only lists making INVALID is reported under C08). Facts about values computed by callees other than the schema lookups and "
+             "Validator.validate are unknown (top). Lookup purity is an assumption discharged by C06 R06.3."),
+}
